@@ -223,8 +223,8 @@ CLAIMS = {
 
 # clauses added after the seeding rounds (DESIGN.md section 3 marks them "added after seeding")
 ADDENDA = {
-    "C01": "Also decides: (R01.c/d/e) the narrowing plumbing clauses shared with C02 (match-guard constraints, operator mirroring, origin-subset test); (R01.f) constant-index arithmetic of sequence subscripts, folded over a finite grid (in-range test == -n <= k < n; forward position k, backward position -k-1; give up at the first unpacked member); (R01.g/h) the narrowing models of C02 R02.k/l (a value narrowed to Never is claimed unreachable); (R01.i) _unpack_sequence_value interpreted on every member shape of up to 4 members x every target list: each target's inferred value contains the element Python's unpacking gives it; (R01.j) visit_MatchSequence and LenPredicate interpreted for every sequence pattern of up to 3 sub-patterns against CPython executing the same match statement. Round 4: (R01.k) len_of_value interpreted on 35 sequence values and literals: a literal length only for an immutable container, equal to its real length; R01.j also decides that the fall-through of a sequence pattern drops sequence subjects only for a pattern that takes every sequence.",
-    "C02": "Also decides: (R02.f) closed-world complement only under an identity test; (R02.g) match guards always contribute their constraint; (R02.h) operator mirrored when the narrowed operand is on the right; (R02.i) origin-subset test before applying a constraint; (R02.j) the isinstance() predicate is a runtime-class test - its negative arm does not drop on assignability alone and its promoted-type table equals TypeObject's artificial bases; by model extraction (R02.k/l): IsAssignablePredicate, EqualsPredicate, InPredicate and the is_instance / is_value / is_truthy / one_of / all_of arms of Constraint.apply_to_value are interpreted from their AST over a universe of 12 runtime objects and 7 classes for both polarities - no object that takes the branch is lost, nothing outside the value and the tested one appears. Round 4: (R02.m) the sequence-pattern model of C01 R01.j; (R02.n) extract_constraints with AndConstraint.make / OrConstraint.make interpreted on 186 values, read as propositional formulas: the extracted constraint is implied by the condition (a null disjunct is never dropped).",
+    "C01": "Also decides: (R01.c/d/e) the narrowing plumbing clauses shared with C02 (match-guard constraints, operator mirroring, origin-subset test); (R01.f) constant-index arithmetic of sequence subscripts, folded over a finite grid (in-range test == -n <= k < n; forward position k, backward position -k-1; give up at the first unpacked member); (R01.g/h) the narrowing models of C02 R02.k/l (a value narrowed to Never is claimed unreachable); (R01.i) _unpack_sequence_value interpreted on every member shape of up to 4 members x every target list: each target's inferred value contains the element Python's unpacking gives it; (R01.j) visit_MatchSequence and LenPredicate interpreted for every sequence pattern of up to 3 sub-patterns against CPython executing the same match statement. Round 4: (R01.k) len_of_value interpreted on 35 sequence values and literals: a literal length only for an immutable container, equal to its real length; R01.j also decides that the fall-through of a sequence pattern drops sequence subjects only for a pattern that takes every sequence. (R01.l) visit_AugAssign interpreted inside and outside a loop: a literal computed by a loop-carried augmented assignment to a name is widened to its type.",
+    "C02": "Also decides: (R02.f) closed-world complement only under an identity test; (R02.g) match guards always contribute their constraint; (R02.h) operator mirrored when the narrowed operand is on the right; (R02.i) origin-subset test before applying a constraint; (R02.j) the isinstance() predicate is a runtime-class test - its negative arm does not drop on assignability alone and its promoted-type table equals TypeObject's artificial bases; by model extraction (R02.k/l): IsAssignablePredicate, EqualsPredicate, InPredicate and the is_instance / is_value / is_truthy / one_of / all_of arms of Constraint.apply_to_value are interpreted from their AST over a universe of 12 runtime objects and 7 classes for both polarities - no object that takes the branch is lost, nothing outside the value and the tested one appears. Round 4: (R02.m) the sequence-pattern model of C01 R01.j; (R02.n) extract_constraints with AndConstraint.make / OrConstraint.make interpreted on 186 values, read as propositional formulas: the extracted constraint is implied by the condition (a null disjunct is never dropped). The narrowing oracle applies the numeric promotion to classes (type[float] stands for int as well) and reads the predicate flags of isinstance / issubclass from their impl functions.",
     "C03": "Also decides: (R03.d) accepting shortcuts before the union member loop need an exact justification; by model extraction (R03.e): the can_assign methods of Value / KnownValue / TypedValue / MultiValuedValue / AnyValue and TypeObject are interpreted from their AST with real runtime objects and classes as payloads - each of 12 objects is accepted by each of 30 types exactly when it is a member (isinstance with numeric promotion, type-strict literals), incl. the large-union fast path; (R03.f) GenericValue / SequenceValue / TypedDictValue.can_assign, replace_known_sequence_value and get_generic_args_for_type interpreted on 38 real container objects x 123 container types (incl. tuples with one unpacked member) and 21 dict objects x 180 TypedDicts: accepted exactly when a structural member; (R03.g) 48 written annotation forms, read by the three interpreted annotation routes, denote the container-model type the typing documentation gives them.",
     "C04": "Also decides: (R04.g) exact early accepts in MultiValuedValue.can_assign; (R04.h) SequenceValue acceptances are dominated by the length comparison; (R04.i) direction of the metatype test; by model extraction (R04.j): on every ordered pair of 36 static types acceptance implies inclusion of member sets, reflexivity, Never/Any laws, union-right = forall, union-left = exists, exclude-any monotone; (R04.k) the same for every pair of 111 container types and of 180 TypedDicts (the fixed-tuple-accepts-variadic-tuple leniency is counted, not reported); (R04.l) accept-by-identity shortcuts on compare=False fields also compare the value-holding fields. Round 4: (R04.m) _extract_protocol_members interpreted on the MRO of 18 protocol classes built by CPython: every member of __protocol_attrs__ is a protocol member.",
     "C05": "Also decides, by model extraction: (R05.f/g) the body of bind_arguments is interpreted from its AST over an abstract store (opaque values, concrete control skeleton) for every def-legal signature of up to 4 (quick) / 6 (thorough) parameters and every call shape of up to 4 positionals and 4 keywords with and without *args/**kwargs of unknown length (158,620 / 2,883,300 abstract calls); accepted <=> CPython binds on the definite slice, and the exists-expansion clause on the star slice, against a reference binder that the thorough tier validates against the interpreter's own binding; (R05.h) preprocess_args + bind_arguments interpreted on calls with *tuple / **dict literals and compared with CPython evaluating the same call of the same def: diagnosed iff CPython raises TypeError at bind time. Round 4: the generic branch of _preprocess_kwargs_no_mvv (get_tv_map, TypedValue(str).can_assign) is part of the R05.h model.",
